@@ -35,7 +35,7 @@ PLAN = dict(
 )
 TEXT = dict(
     technique="property-based testing: generated producer/consumer programs around one flow-graph node x generated schedules over the real node and scheduler code "
-              "(controlled scheduler, SC+TSO) against per-node contract oracles on stamped put / hand-out intervals",
+              "(controlled scheduler, SC+TSO) against per-node contract oracles on stamped put / hand-out intervals; plus rapidcheck model-based testing of single nodes (programmable accepting / rejecting successors, push / pull edges, reservations, limiter decrements of -3..+3, graph::reset, copy construction) against an executable sequential contract",
     level_text="Exploration: every try_put, try_get, reservation call and sink body is stamped with the scheduler's logical clock, so each item has a put interval and a hand-out "
                "interval. Oracles: conservation (every accepted item leaves exactly once or is still there for a final try_get; rejected items never appear), queue_node FIFO per "
                "producer (total with a single serial feeder), sequencer output exactly 0,1,2,... with one accepted put per number and nothing past a gap, priority_queue hand-outs "
